@@ -323,14 +323,16 @@ Print Assumptions C02_roundtrip_distances_refuted.
 (* --- round trip of the condition text (C02_roundtrip_cond) ---
    For every non-empty list cs of condition trees of the shapes the parser builds (rt_ok: names are IDENTIFIER
    tokens, numbers not negative, groups non-empty, AndConditions with >= 2 operands that are not AndConditions,
-   cds/minimum only outside cds, no repeated operand, and the guard cds_ok of finding cds_single_wrapped):
+   cds/minimum only outside cds, no repeated operand):
    the text  str(c1) or str(c2) or ...  tokenises to the token texts toks, and from every parser state in front of
    these tokens that knows no alias used in them, with fuel 2|toks|+3, _parse_conditions returns the trees
    norm c1, norm c2, ... - norm removes the one-member groups the printer does not print (negating the member
-   once more when the group is negated) and sorts the options of minimum().  norm c prints the same text as c
+   once more when the group is negated), sorts the options of minimum() and keeps the only member of a cds( ) in the
+   explicit group CDSCondition.__str__ prints around it when its text holds no parenthesis.  norm c prints the same text as c
    (the regenerated text is a fixed point) and has the same meaning under every interpretation of the leaves
    (den: groups = OR, AndCondition = AND, not = negation, cds(...) = some gene satisfies the inside on its own).
-   No guard on doubled negations any more (repair dceca0db). *)
+   No guard on doubled negations any more (repair dceca0db), and no guard on the content of cds( ) any more
+   (finding cds_single_wrapped, repaired: cds((a)) is printed as cds((a))). *)
 Theorem C02_roundtrip_cond : forall cs, cs <> [] -> forallb rt_ok cs = true ->
   let toks := ljoin (codes "or") (map lt cs) in
   tokenise (join s_or_sep (map show cs)) = Ok toks /\
@@ -350,37 +352,71 @@ Theorem C02_roundtrip_conditions_text : forall cs,
 Proof. exact conditions_text. Qed.
 Print Assumptions C02_roundtrip_conditions_text.
 
-(* the hypotheses of the round trip other than cds_ok hold for everything _parse_conditions returns, when the
-   consumed tokens carry the type of their text (as the tokeniser makes them) *)
+(* the hypotheses of the round trip hold for everything _parse_conditions returns, when the consumed tokens carry
+   the type of their text (as the tokeniser makes them) *)
 Theorem C02_parsed_conditions_shape : forall f allow g s cs s', parse_conditions f allow g s = Ok (cs, s') ->
   Forall tok_wf (consumed s') ->
   forallb (fun c => lexable c && shape allow c && nrb c) cs = true /\ cs <> [].
 Proof. exact parsed_shape. Qed.
 Print Assumptions C02_parsed_conditions_shape.
 
-(* without the guard cds_ok the round trip is false (finding cds_single_wrapped): cds((a)) is accepted, printed as
-   cds(a), and that is rejected *)
-Theorem C02_roundtrip_cds_single_refuted : exists text sigs cats r,
+(* hence: the text regenerated from ANY conditions _parse_conditions has returned (outside cds( ), tokens as the
+   tokeniser makes them) tokenises and parses back to norm of them, which prints the same text and means the same.
+   Before the repair of finding cds_single_wrapped this was false (cds((a)) was printed as cds(a), which is rejected)
+   and C02_roundtrip_cond carried the guard cds_ok. *)
+Theorem C02_roundtrip_parsed : forall f g s cs s', parse_conditions f true g s = Ok (cs, s') ->
+  Forall tok_wf (consumed s') ->
+  let toks := ljoin (codes "or") (map lt cs) in
+  tokenise (join s_or_sep (map show cs)) = Ok toks /\
+  (forall als cons f', nah als (map mk_token toks) = true -> (2 * List.length toks + 3 <= f')%nat ->
+     parse_conditions f' true false (st (map mk_token toks) cons als)
+     = Ok (map norm cs, st [] (rev (map mk_token toks) ++ cons) als)) /\
+  map show (map norm cs) = map show cs /\
+  (forall e genes, map (den e genes) (map norm cs) = map (den e genes) cs).
+Proof. exact roundtrip_parsed. Qed.
+Print Assumptions C02_roundtrip_parsed.
+
+(* the recorded witness of finding cds_single_wrapped (repaired): cds((a)) is accepted, regenerated as cds((a)), and
+   that text parses back to a rule with the same conditions and the same text; likewise cds(((a))) and
+   not cds(not (c)), whose regenerated texts are cds((a)) and not cds((not c)) *)
+Theorem C02_roundtrip_cds_single : exists text sigs cats r r2,
   parse_files [text] 0 sigs cats (mkM 1 1 1 1) [] [] = inl ([r], []) /\
-  lexable (r_cond r) && shape true (r_cond r) && nrb (r_cond r) = true /\ cds_ok (r_cond r) = false /\
-  parse_files [reconstruct r] 0 sigs cats (mkM 1 1 1 1) [] [] = inr (E_RuleSyntax, 0).
+  reconstruct r = codes "RULE r1 CATEGORY cat CUTOFF 1 NEIGHBOURHOOD 1 CONDITIONS b and cds((a))" /\
+  parse_files [reconstruct r] 0 sigs cats (mkM 1 1 1 1) [] [] = inl ([r2], []) /\
+  r_cond r2 = r_cond r /\ reconstruct r2 = reconstruct r.
 Proof.
   exists (codes "RULE r1 CATEGORY cat CUTOFF 1 NEIGHBOURHOOD 1 CONDITIONS b and cds((a))"),
          (map codes ["a"; "b"]%string), [codes "cat"].
-  eexists. split; [vm_compute; reflexivity|]. split; [vm_compute; reflexivity|]. split; vm_compute; reflexivity.
+  eexists. eexists. split; [vm_compute; reflexivity|]. split; [vm_compute; reflexivity|].
+  split; [vm_compute; reflexivity|]. split; vm_compute; reflexivity.
 Qed.
-Print Assumptions C02_roundtrip_cds_single_refuted.
+Print Assumptions C02_roundtrip_cds_single.
+
+Example C02_roundtrip_cds_single_example :
+  let sigs := map codes ["a"; "b"; "c"]%string in
+  match parse_files [codes "RULE r1 CATEGORY cat CUTOFF 1 NEIGHBOURHOOD 1 CONDITIONS b and cds(((a))) or a and not cds(not (c))"] 0 sigs
+                    [codes "cat"] (mkM 1 1 1 1) [] [] with
+  | inl ([r], _) =>
+    reconstruct r = codes "RULE r1 CATEGORY cat CUTOFF 1 NEIGHBOURHOOD 1 CONDITIONS b and cds((a)) or a and not cds((not c))" /\
+    match parse_files [reconstruct r] 0 sigs [codes "cat"] (mkM 1 1 1 1) [] [] with
+    | inl ([r2], _) => reconstruct r2 = reconstruct r /\ r_cond r2 = norm (r_cond r)
+    | _ => False
+    end
+  | _ => False
+  end.
+Proof. vm_compute. repeat split; reflexivity. Qed.
 
 (* non-vacuity: trees as the parser returns them for a text with a doubled negation in one-member groups, a
-   negated one-member group, minimum with unsorted options, cds and minscore satisfy rt_ok; norm changes them;
+   negated one-member group, minimum with unsorted options, cds (one with a one-member group as only member) and
+   minscore satisfy rt_ok; norm changes them;
    the text is unchanged *)
 Example C02_roundtrip_cond_example :
-  match tokenise (codes "a and not ((not b)) or not (c) and minimum(2,[c,a]) or cds(a and (b or not c)) or ((minscore(d, 07)))") with
+  match tokenise (codes "a and not ((not b)) or not (c) and minimum(2,[c,a]) or cds(a and (b or not c)) or ((minscore(d, 07))) or cds(((e)))") with
   | Ok (t :: r) =>
     match parse_conditions 200 true false (mkP (Some (mk_token t)) (map mk_token r) [] []) with
-    | Ok (cs, _) => forallb rt_ok cs = true /\ map norm cs <> cs /\ List.length cs = 4%nat /\
+    | Ok (cs, _) => forallb rt_ok cs = true /\ map norm cs <> cs /\ List.length cs = 5%nat /\
                     join s_or_sep (map show cs)
-                    = codes "a and not (not b) or not c and minimum(2, [a, c]) or cds(a and (b or not c)) or minscore(d, 7)"
+                    = codes "a and not (not b) or not c and minimum(2, [a, c]) or cds(a and (b or not c)) or minscore(d, 7) or cds((e))"
     | Err _ => False
     end
   | _ => False
